@@ -78,38 +78,41 @@ end Cnfgen.Fam
 namespace Cnfgen.Fam
 open Cnfgen
 
-/-- the first `k` vertices form the clique (member `i` is vertex `i`), vertex `v` gets colour `min v c` -/
-def ccWitness (n k c : Nat) : Assign := fun x =>
-  if x < 1 + (pairs (idx n)).length then decide (((pairs (idx n)).getD (x - 1) (0, 0)).2 ≤ k)
-  else if x < 1 + (pairs (idx n)).length + k * n then (ccQ n k).assignOf (fun i v => i == v) x
-  else (ccR n k c).assignOf (fun v l => l == min v c) x
+/-- the assignment describing a graph `E` (on pairs `u < v`), clique map `Q` and colouring `R` -/
+def ccAssign (n k c : Nat) (E Q R : Nat → Nat → Bool) : Assign := fun x =>
+  if x < 1 + (pairs (idx n)).length then
+    E ((pairs (idx n)).getD (x - 1) (0, 0)).1 ((pairs (idx n)).getD (x - 1) (0, 0)).2
+  else if x < 1 + (pairs (idx n)).length + k * n then (ccQ n k).assignOf Q x
+  else (ccR n k c).assignOf R x
 
-theorem ccWitness_e (n k c : Nat) {u v : Nat} (h : (u, v) ∈ pairs (idx n)) :
-    ccWitness n k c (ccEVar n u v) = decide (v ≤ k) := by
+theorem ccAssign_e (n k c : Nat) (E Q R : Nat → Nat → Bool) {u v : Nat} (h : (u, v) ∈ pairs (idx n)) :
+    ccAssign n k c E Q R (ccEVar n u v) = E u v := by
   have hlt := List.idxOf_lt_length_iff.2 h
   have h1 : ccEVar n u v < 1 + (pairs (idx n)).length := by simp only [ccEVar]; omega
   have h2 : ccEVar n u v - 1 = (pairs (idx n)).idxOf (u, v) := by simp only [ccEVar]; omega
-  simp only [ccWitness, if_pos h1, h2]
+  simp only [ccAssign, if_pos h1, h2]
   rw [List.getD_eq_getElem?_getD, List.getElem?_eq_getElem hlt, List.getElem_idxOf]
   rfl
 
-theorem ccWitness_q (n k c : Nat) {i v : Nat} (hi1 : 1 ≤ i) (hi : i ≤ k) (hv1 : 1 ≤ v) (hv : v ≤ n) :
-    ccWitness n k c ((ccQ n k).var i v) = (i == v) := by
+theorem ccAssign_q (n k c : Nat) (E Q R : Nat → Nat → Bool) {i v : Nat}
+    (hi1 : 1 ≤ i) (hi : i ≤ k) (hv1 : 1 ≤ v) (hv : v ≤ n) :
+    ccAssign n k c E Q R ((ccQ n k).var i v) = Q i v := by
   have hlt := (ccQ n k).var_lt hi1 hi hv1 hv
   have hge := (ccQ n k).var_ge i v
-  have := (ccQ n k).assignOf_var (fun i v => i == v) hi1 hv1 hv
+  have := (ccQ n k).assignOf_var Q hi1 hv1 hv
   simp only [ccQ] at hlt hge
   have h1 : ¬ (ccQ n k).var i v < 1 + (pairs (idx n)).length := by simp only [ccQ]; omega
   have h2 : (ccQ n k).var i v < 1 + (pairs (idx n)).length + k * n := by simp only [ccQ]; omega
-  simp only [ccWitness, if_neg h1, if_pos h2, this]
+  simp only [ccAssign, if_neg h1, if_pos h2, this]
 
-theorem ccWitness_r (n k c : Nat) {v l : Nat} (hv1 : 1 ≤ v) (hl1 : 1 ≤ l) (hl : l ≤ c) :
-    ccWitness n k c ((ccR n k c).var v l) = (l == min v c) := by
+theorem ccAssign_r (n k c : Nat) (E Q R : Nat → Nat → Bool) {v l : Nat}
+    (hv1 : 1 ≤ v) (hl1 : 1 ≤ l) (hl : l ≤ c) :
+    ccAssign n k c E Q R ((ccR n k c).var v l) = R v l := by
   have hge := (ccR n k c).var_ge v l
-  have := (ccR n k c).assignOf_var (fun v l => l == min v c) hv1 hl1 hl
+  have := (ccR n k c).assignOf_var R hv1 hl1 hl
   simp only [ccR] at hge
   have h1 : ¬ (ccR n k c).var v l < 1 + (pairs (idx n)).length := by simp only [ccR]; omega
   have h2 : ¬ (ccR n k c).var v l < 1 + (pairs (idx n)).length + k * n := by simp only [ccR]; omega
-  simp only [ccWitness, if_neg h1, if_neg h2, this]
+  simp only [ccAssign, if_neg h1, if_neg h2, this]
 
 end Cnfgen.Fam
